@@ -1,12 +1,39 @@
-"""C08 -- see DESIGN.md section 5, C08 (Driver.tla / DriverTrace.tla)."""
+"""C08 -- decomposition outputs honour requested structure and canonical form.
+
+Two bindings: (1) the Driver traces (iterative decompositions, both exit paths, DriverTrace.tla);
+(2) Struct.tla / StructTrace.tla for the SVD-based decompositions and the rank validators.
+"""
+from .. import lib_struct as S
+from ..common import execute_cases
 from ..lib_drvcheck import run_driver_check, replay_driver_check
 
 PROP = "C08"
 
 
+def struct_part(chk, cases):
+    chk.add_cases(cases)
+    events = execute_cases(S.execute, cases, repo=chk.repo)
+    for e in events[:2]:
+        chk.sample(e, limit=6)
+    by_id = {e.get("id"): e for e in events}
+    for rid, clause, _ in chk.validate("StructTrace", events):
+        rec = chk.violation(rid, clause, event=by_id.get(rid))
+        rec["fam"] = by_id.get(rid, {}).get("fam")
+    chk.notes["struct_events"] = len(events)
+    chk.notes["struct_raised"] = sum(e.get("out") == "raised" for e in events)
+
+
 def run(chk, opts):
+    r = chk.design("Struct", "StructMC.cfg", coverage=False, workers=8)
+    chk.notes["struct_design_run"] = r.summary()
+    if "only" not in opts:
+        struct_part(chk, S.struct_cases(chk.tier, chk.seed))
     run_driver_check(chk, PROP, opts)
 
 
 def replay(chk, rec, opts):
-    replay_driver_check(chk, PROP, rec, opts)
+    case = rec["case"]
+    if "fam" in case:
+        struct_part(chk, [case])
+    else:
+        replay_driver_check(chk, PROP, rec, opts)
